@@ -342,11 +342,15 @@ type Guard struct {
 	//     "call" (atom is a call matched by A), "val" (atom's slice matched by A, any shape)
 	Op    string
 	A, B  vpred
-	Holds bool // required truth value of the normalised atom on the way to success
+	Holds bool   // required truth value of the normalised atom on the way to success
+	Alt   *Guard // an equivalent way of writing the same test
 }
 
 // matchGuard tells whether fact f establishes guard g.
 func matchGuard(f Fact, g Guard) bool {
+	if g.Alt != nil && matchGuard(f, *g.Alt) {
+		return true
+	}
 	switch g.Op {
 	case "eq":
 		b, ok := f.Atom.(*ssa.BinOp)
